@@ -78,6 +78,10 @@ func c17Base(r gen.R) (*sl.Program, []string) {
 		if gen.Chance(r, 0.15) {
 			rule.Disruptive, rule.Status = "deny", gen.Pick(r, []int{403, 406})
 		}
+		if gen.Chance(r, 0.15) {
+			// a removed rule inside a skip window must not use up a slot of the window
+			rule.Skip = 1 + r.IntN(3)
+		}
 		if gen.Chance(r, 0.25) {
 			l := fmt.Sprintf("l%d", id)
 			steers = append(steers, l)
@@ -331,99 +335,170 @@ func c17Build(r gen.R) (*c17Case, bool) {
 		c.Req = c17Request(r, steers, base)
 		return c, true
 	}
-	// run-time ctl counterpart on a steerable carrier rule placed at a random position and phase
+	// run-time ctl counterparts on 1-3 steerable carrier rules placed at random positions and phases
 	rules := c17Rules(base)
-	pos := r.IntN(len(base.Items) + 1)
-	phase := 1 + r.IntN(4)
-	carrierOn := gen.Chance(r, 0.75)
-	var m c17Mod
-	var ctl string
-	switch r.IntN(6) {
-	case 0:
-		arg, ids := c17PickIDs(r, rules, false)
-		m = c17Mod{Kind: "removeById", IDs: ids}
-		ctl = "ruleRemoveById=" + arg
-	case 1:
-		t := gen.Pick(r, c17Tags)
-		m = c17Mod{Kind: "removeByTag", Tag: t}
-		ctl = "ruleRemoveByTag=" + t
-	case 2:
-		msg := gen.Pick(r, c17Msgs)
-		m = c17Mod{Kind: "removeByMsg", Msg: msg}
-		ctl = "ruleRemoveByMsg=" + msg
-	case 3:
-		arg, ids := c17PickIDs(r, rules, false)
-		if len(ids) == 0 {
+	nc := 1
+	if gen.Chance(r, 0.45) {
+		nc = 2 + r.IntN(2)
+	}
+	var cars []*c17Car
+	for k := 0; k < nc; k++ {
+		var m c17Mod
+		var ctl string
+		switch r.IntN(7) {
+		case 0, 6:
+			arg, ids := c17PickIDs(r, rules, false)
+			m = c17Mod{Kind: "removeById", IDs: ids}
+			ctl = "ruleRemoveById=" + arg
+		case 1:
+			t := gen.Pick(r, c17Tags)
+			m = c17Mod{Kind: "removeByTag", Tag: t}
+			ctl = "ruleRemoveByTag=" + t
+		case 2:
+			msg := gen.Pick(r, c17Msgs)
+			m = c17Mod{Kind: "removeByMsg", Msg: msg}
+			ctl = "ruleRemoveByMsg=" + msg
+		case 3:
+			arg, ids := c17PickIDs(r, rules, false)
+			if len(ids) == 0 {
+				return nil, false
+			}
+			sel := c17CtlTarget(r, ids[0])
+			m = c17Mod{Kind: "updTargetById", IDs: ids, Sel: sel}
+			ctl = fmt.Sprintf("ruleRemoveTargetById=%s;%s", arg, strings.TrimPrefix(sel.Render(), "!"))
+		case 4:
+			t := gen.Pick(r, c17Tags)
+			sel := c17CtlTarget(r, gen.Pick(r, rules).ID)
+			m = c17Mod{Kind: "updTargetByTag", Tag: t, Sel: sel}
+			ctl = fmt.Sprintf("ruleRemoveTargetByTag=%s;%s", t, strings.TrimPrefix(sel.Render(), "!"))
+		default:
+			msg := gen.Pick(r, c17Msgs)
+			sel := c17CtlTarget(r, gen.Pick(r, rules).ID)
+			m = c17Mod{Kind: "updTargetByMsg", Msg: msg, Sel: sel}
+			ctl = fmt.Sprintf("ruleRemoveTargetByMsg=%s;%s", msg, strings.TrimPrefix(sel.Render(), "!"))
+		}
+		c.Kinds = append(c.Kinds, "ctl:"+m.Kind)
+		name := fmt.Sprintf("ctl%d", k)
+		car := &sl.Rule{ID: 9000 + k, Phase: 1 + r.IntN(4), Severity: -1, Disruptive: "pass", Targets: []sl.Sel{{Var: "ARGS_GET", Kind: 1, Key: name}},
+			Op: &sl.Op{Name: "streq", Arg: "1"}, Ctl: []string{ctl}}
+		plain := cloneRule(car)
+		plain.Ctl = nil
+		cars = append(cars, &c17Car{rule: car, plain: plain, mod: m, pos: r.IntN(len(base.Items) + 1), name: name})
+	}
+	if nc > 1 {
+		c.Kinds = append(c.Kinds, "ctl:several")
+	}
+	c.Req = c17Request(r, steers, base)
+	for _, car := range cars {
+		if gen.Chance(r, 0.8) {
+			c.Req.Get = append(c.Req.Get, sl.KV{K: car.name, V: "1"})
+		}
+	}
+	// order of the items of configuration A: base items with the carriers inserted
+	type slot struct {
+		base *sl.Rule
+		car  *c17Car
+	}
+	var order []slot
+	for i := 0; i <= len(base.Items); i++ {
+		for _, car := range cars {
+			if car.pos == i {
+				order = append(order, slot{car: car})
+			}
+		}
+		if i < len(base.Items) {
+			order = append(order, slot{base: base.Items[i].Rule})
+		}
+	}
+	idxOf := map[*c17Car]int{}
+	for i, sl_ := range order {
+		if sl_.car != nil {
+			idxOf[sl_.car] = i
+		}
+	}
+	// build B for a given set of carriers whose ctl took effect
+	buildB := func(fired map[*c17Car]bool) *sl.Program {
+		b := &sl.Program{Engine: "On"}
+		for i, sl_ := range order {
+			if sl_.car != nil {
+				b.Items = append(b.Items, sl.Item{Rule: sl_.car.plain})
+				continue
+			}
+			ru := cloneRule(sl_.base)
+			// apply the ctls in the order in which they are executed (phase, then position)
+			for _, car := range carsInEvalOrder(cars, idxOf) {
+				if ru == nil || !fired[car] {
+					continue
+				}
+				after := ru.Phase > car.rule.Phase || (ru.Phase == car.rule.Phase && i > idxOf[car])
+				if !after {
+					continue
+				}
+				if car.mod.Kind == "updTargetByMsg" {
+					if ru.Msg != "" && ru.Msg == car.mod.Msg {
+						ru.Targets = append(ru.Targets, *car.mod.Sel)
+					}
+				} else {
+					ru = c17Apply(ru, car.mod)
+				}
+			}
+			if ru != nil {
+				b.Items = append(b.Items, sl.Item{Rule: ru})
+			}
+		}
+		return b
+	}
+	// a ctl takes effect only if its carrier rule fires, which depends on the rules evaluated before it (skip windows,
+	// earlier removals): decide carrier by carrier, in evaluation order, with the reference model
+	fired := map[*c17Car]bool{}
+	for _, car := range carsInEvalOrder(cars, idxOf) {
+		res := sl.Run(buildB(fired), c.Req)
+		if res.Ambiguous != "" {
 			return nil, false
 		}
-		sel := c17CtlTarget(r, ids[0])
-		m = c17Mod{Kind: "updTargetById", IDs: ids, Sel: sel}
-		ctl = fmt.Sprintf("ruleRemoveTargetById=%s;%s", arg, strings.TrimPrefix(sel.Render(), "!"))
-	case 4:
-		t := gen.Pick(r, c17Tags)
-		sel := c17CtlTarget(r, gen.Pick(r, rules).ID)
-		m = c17Mod{Kind: "updTargetByTag", Tag: t, Sel: sel}
-		ctl = fmt.Sprintf("ruleRemoveTargetByTag=%s;%s", t, strings.TrimPrefix(sel.Render(), "!"))
-	default:
-		msg := gen.Pick(r, c17Msgs)
-		sel := c17CtlTarget(r, gen.Pick(r, rules).ID)
-		m = c17Mod{Kind: "updTargetByMsg", Msg: msg, Sel: sel}
-		ctl = fmt.Sprintf("ruleRemoveTargetByMsg=%s;%s", msg, strings.TrimPrefix(sel.Render(), "!"))
+		for _, f := range res.Fired {
+			if f.ID == car.rule.ID {
+				fired[car] = true
+			}
+		}
 	}
-	c.Kinds = []string{"ctl:" + m.Kind}
-	carrier := &sl.Rule{ID: 9000, Phase: phase, Severity: -1, Disruptive: "pass", Targets: []sl.Sel{{Var: "ARGS_GET", Kind: 1, Key: "ctl"}},
-		Op: &sl.Op{Name: "streq", Arg: "1"}, Ctl: []string{ctl}}
-	plain := cloneRule(carrier)
-	plain.Ctl = nil
 	a := &sl.Program{Engine: "On"}
-	b := &sl.Program{Engine: "On"}
-	for i := 0; i <= len(base.Items); i++ {
-		if i == pos {
-			a.Items = append(a.Items, sl.Item{Rule: carrier})
-			b.Items = append(b.Items, sl.Item{Rule: plain})
-		}
-		if i == len(base.Items) {
-			break
-		}
-		it := base.Items[i]
-		a.Items = append(a.Items, it)
-		ru := cloneRule(it.Rule)
-		after := ru.Phase > phase || (ru.Phase == phase && i >= pos)
-		if carrierOn && after {
-			if m.Kind == "updTargetByMsg" {
-				if ru.Msg != "" && ru.Msg == m.Msg {
-					ru.Targets = append(ru.Targets, *m.Sel)
-				}
-			} else {
-				ru = c17Apply(ru, m)
-			}
-		}
-		if ru != nil {
-			b.Items = append(b.Items, sl.Item{Rule: ru})
+	q := &sl.Program{Engine: "On"}
+	for _, sl_ := range order {
+		if sl_.car != nil {
+			a.Items = append(a.Items, sl.Item{Rule: sl_.car.rule})
+			q.Items = append(q.Items, sl.Item{Rule: sl_.car.plain})
+		} else {
+			a.Items = append(a.Items, sl.Item{Rule: sl_.base})
+			q.Items = append(q.Items, sl.Item{Rule: sl_.base})
 		}
 	}
-	c.TextA, c.TextB = a.Render(), b.Render()
-	c.Req = c17Request(r, steers, base)
-	if carrierOn {
-		c.Req.Get = append(c.Req.Get, sl.KV{K: "ctl", V: "1"})
-	}
-	// isolation follow-up: the next transaction on WAF A (without the ctl firing) behaves like the base rules
-	c.BaseText = func() string {
-		q := *base
-		q.Items = nil
-		for i := 0; i <= len(base.Items); i++ {
-			if i == pos {
-				q.Items = append(q.Items, sl.Item{Rule: plain})
-			}
-			if i < len(base.Items) {
-				q.Items = append(q.Items, base.Items[i])
-			}
-		}
-		return q.Render()
-	}()
+	c.TextA, c.TextB = a.Render(), buildB(fired).Render()
+	// isolation follow-up: the next transaction on WAF A (without any ctl firing) behaves like the base rules
+	c.BaseText = q.Render()
 	_ = baseText
 	c.Req2 = c17Request(r, steers, base)
 	return c, true
+}
+
+type c17Car struct {
+	rule  *sl.Rule
+	plain *sl.Rule
+	mod   c17Mod
+	pos   int // inserted before base.Items[pos]
+	name  string
+}
+
+// carsInEvalOrder sorts the carriers by the moment their rule is evaluated (phase, then position).
+func carsInEvalOrder(cars []*c17Car, idxOf map[*c17Car]int) []*c17Car {
+	out := append([]*c17Car{}, cars...)
+	sort.SliceStable(out, func(i, j int) bool {
+		if out[i].rule.Phase != out[j].rule.Phase {
+			return out[i].rule.Phase < out[j].rule.Phase
+		}
+		return idxOf[out[i]] < idxOf[out[j]]
+	})
+	return out
 }
 
 // c17CtlTarget: a ctl:ruleRemoveTarget* target (always an exclusion of a string or regex key).
@@ -531,7 +606,7 @@ func init() {
 		ID: "C17", Level: "exploration",
 		Rule:        "base rule sets of 4-12 rules (ids, tags, messages incl. rules without msg, chains, some blocking) combined with 1-3 SecRuleRemoveById/ByTag/ByMsg, SecRuleUpdateTargetById/ByTag (positive targets; string and regex exclusions) and SecRuleUpdateActionById directives over single ids, several ids and ranges - or with one run-time ctl:ruleRemoveById/ByTag/ByMsg / ctl:ruleRemoveTargetById/ByTag/ByMsg on a steerable carrier rule at a random position and phase - are run next to the configuration the generator rewrote explicitly (rules deleted, targets/actions written in place; for ctl only for rules evaluated after the carrier); fired rules, match data, interruption and counters must agree. A follow-up transaction on the same WAF must behave like the base rules. Non-trivial: the two configuration texts differ and some rule fired; distinct by (configuration A, request).",
 		Assumptions: []string{"both sides run through the real engine; the rewritten form only uses constructs covered by C01/C08/C09", "configurations whose directive form is rejected by NewWAF are counted, not judged"},
-		Required:    []string{"kind:removeById", "kind:removeByTag", "kind:removeByMsg", "kind:updTargetById", "kind:updTargetByTag", "kind:updActionById", "kind:ctl:removeById", "kind:ctl:updTargetById", "isolation_followups"},
+		Required:    []string{"kind:ctl:several", "kind:removeById", "kind:removeByTag", "kind:removeByMsg", "kind:updTargetById", "kind:updTargetByTag", "kind:updActionById", "kind:ctl:removeById", "kind:ctl:updTargetById", "isolation_followups"},
 		Plan: func(tier fw.Tier, seed int64) []fw.Batch {
 			n := 16
 			if tier == fw.Thorough {
